@@ -153,6 +153,13 @@ fn project_files() -> Vec<(&'static str, &'static str)> {
 
 const PROJECT_NAMESPACES: [&str; 9] = ["Lib", "Lib::Shape", "Lib::P", "Lib::Show", "Deep", "Deep::Kind", "Other", "Main", "L"];
 
+const DEEP_SEGMENTS: [&str; 10] = ["Lib", "Deep", "Other", "Main", "Shape", "Color", "P", "Show", "Kind", "Hidden"];
+
+/// a Main that declares namesakes of the library's types, with members the library's do not have
+fn project_main_with_namesakes(ns: &str) -> String {
+    format!("package Main\nimport Lib\n\nenum Color {{ Mine, Red }}\nstruct P {{ z: int32 }}\nimpl P {{ fn origin() -> P {{ P {{ z: 0 }} }} }}\nenum Kind {{ Local }}\nstruct Hidden {{ h: int32 }}\nimpl Hidden {{ fn make() -> Hidden {{ Hidden {{ h: 1 }} }} }}\nfn helper() -> int32 {{ 1 }}\n\nfn main() {{\n    let p = Lib::mk(1);\n    let zz = {}::§;\n    ()\n}}\n", ns)
+}
+
 fn project_main(ns: &str) -> String {
     format!("package Main\nimport Lib\n\nfn helper() -> int32 {{ 1 }}\n\nfn main() {{\n    let p = Lib::mk(1);\n    let zz = {}::§;\n    ()\n}}\n", ns)
 }
@@ -268,7 +275,7 @@ impl Family for Completions {
         &["C20"]
     }
     fn rule(&self) -> &'static str {
-        "dot completion at `recv.` for 10 receivers of a two-parameter generic struct with impls whose pattern repeats the type parameter, inside generic functions whose parameter has the same / another name; for 33 receiver expressions in main (locals of struct / struct-with-struct-field / two instances of a generic struct / Ref / Vec / tuple / array / enum / generic enum / int32 / string / dyn / Ref of a generic instance / nested generic instance / closure / unit; fields, tuple projections, call and method-call results, ref_get / vec_get / array_get results, a parenthesised receiver, a literal) + 10 type parameters under several bounds (disjoint method names, one name declared by two traits in either order, three traits, a second / an unbounded first parameter, the value reached through a field / a generic call / inside a closure, a method's own parameter) + 12 other binding contexts (bounded and unbounded type parameter, generic struct of a parameter, closure parameter, pattern variables, self in an inherent and in a generic method, function parameters of struct and Ref type, a shadowed local, a local redefined later); `Ns::` completion for 10 single-file namespaces (enum, generic enum, struct with / without methods, generic struct, trait, int32, string, the own package, an unknown name) and 9 namespaces of a 4-package project (imported package, its enum / struct / trait, a package only reachable through the import, one of its enums, a package present on disk but not imported, the own package, a prefix of a package name); 8 cursors where the path is not an expression (a parameter type and a let annotation naming the own / an imported package, a pattern naming an enum / a generic enum / an imported enum, a cursor inside a middle segment of a path); oracle: the request returns without panic and every offered item, inserted at the cursor (methods with synthesised arguments, variants with synthesised payloads, types in a parameter position, traits in a bound), type-checks; where arguments cannot be synthesised only resolution errors count. non-trivial = cursors at which at least one item was offered; distinct = distinct (cursor, item)"
+        "dot completion at `recv.` for 10 receivers of a two-parameter generic struct with impls whose pattern repeats the type parameter, inside generic functions whose parameter has the same / another name; for 33 receiver expressions in main (locals of struct / struct-with-struct-field / two instances of a generic struct / Ref / Vec / tuple / array / enum / generic enum / int32 / string / dyn / Ref of a generic instance / nested generic instance / closure / unit; fields, tuple projections, call and method-call results, ref_get / vec_get / array_get results, a parenthesised receiver, a literal) + 10 type parameters under several bounds (disjoint method names, one name declared by two traits in either order, three traits, a second / an unbounded first parameter, the value reached through a field / a generic call / inside a closure, a method's own parameter) + 12 other binding contexts (bounded and unbounded type parameter, generic struct of a parameter, closure parameter, pattern variables, self in an inherent and in a generic method, function parameters of struct and Ref type, a shadowed local, a local redefined later); `Ns::` completion for 10 single-file namespaces (enum, generic enum, struct with / without methods, generic struct, trait, int32, string, the own package, an unknown name) and 9 namespaces of a 4-package project (imported package, its enum / struct / trait, a package only reachable through the import, one of its enums, a package present on disk but not imported, the own package, a prefix of a package name); every path of two segments and 500 of three segments over the 10 single-file namespaces, every path of two and 400 of three segments over 10 names of a project whose Main declares namesakes of the library's types; 8 cursors where the path is not an expression (a parameter type and a let annotation naming the own / an imported package, a pattern naming an enum / a generic enum / an imported enum, a cursor inside a middle segment of a path); oracle: the request returns without panic and every offered item, inserted at the cursor (methods with synthesised arguments, variants with synthesised payloads, types in a parameter position, traits in a bound), type-checks; where arguments cannot be synthesised only resolution errors count. non-trivial = cursors at which at least one item was offered; distinct = distinct (cursor, item)"
     }
     fn cases(&self, _tier: Tier) -> Box<dyn Iterator<Item = Value> + '_> {
         let mut v = Vec::new();
@@ -280,6 +287,24 @@ impl Family for Completions {
         }
         for ns in PROJECT_NAMESPACES {
             v.push(json!({"kind": "project-colon", "ns": ns}));
+        }
+        // paths of two and three segments: every sequence over the namespaces of the file / of a project whose Main
+        // declares namesakes of the library's types (a path names what its *whole* prefix names, never its last segment alone)
+        for a in NAMESPACES {
+            for b in NAMESPACES {
+                v.push(json!({"kind": "colon", "ns": format!("{}::{}", a, b)}));
+                for c in ["E", "S", "Box", "Tr", "Main"] {
+                    v.push(json!({"kind": "colon", "ns": format!("{}::{}::{}", a, b, c)}));
+                }
+            }
+        }
+        for a in DEEP_SEGMENTS {
+            for b in DEEP_SEGMENTS {
+                v.push(json!({"kind": "project-colon-deep", "ns": format!("{}::{}", a, b)}));
+                for c in ["Color", "P", "Kind", "Lib"] {
+                    v.push(json!({"kind": "project-colon-deep", "ns": format!("{}::{}::{}", a, b, c)}));
+                }
+            }
         }
         v.push(json!({"kind": "project-dot", "ns": "p"}));
         for (n, _, _, _) in position_contexts() {
@@ -391,7 +416,7 @@ impl Family for Completions {
                     std::fs::create_dir_all(p.parent().unwrap()).unwrap();
                     std::fs::write(p, src).unwrap();
                 }
-                let text = if kind == "project-dot" { project_main("Lib").replace("Lib::§", "p.§") } else { project_main(ns) };
+                let text = if kind == "project-dot" { project_main("Lib").replace("Lib::§", "p.§") } else if kind == "project-colon-deep" { project_main_with_namesakes(ns) } else { project_main(ns) };
                 std::fs::write(root.join("main.gom"), text.replace('§', "mk")).unwrap();
                 (root.join("main.gom"), text, format!("{};namespace={}", kind, ns))
             }
